@@ -277,7 +277,7 @@ def run_recover(case):
             for p in list(fs.names):
                 if p.startswith('/sim/Out.fs'):
                     fs.unlink_quiet(p)
-            sim.io_budget = 64 * len(data) + 100000
+            sim.io_budget = 32 * len(data) + 20000
             sim.io_steps = 0
             out = io.StringIO()
             try:
